@@ -273,3 +273,114 @@ def unit_as_expr(nops=2, nterms=2, timeout_ms=20000):
     r.bounded.append(f"{nops} operators, {nterms} terms (powers symbolic integers, coefficients opaque)")
     r.notes.append("values are words over opaque factors; sympy's reordering of factors it regards as commutative is outside (F-ASEXPR)")
     return r
+
+
+# ---- __eq__, __bool__, _eval_is_zero, terms, operators ----------------------------------------------------
+
+def unit_eq(other_kind, timeout_ms=10000):
+    """NumberOrderedForm.__eq__: other_kind: same-operators | other-operators | convertible | inconvertible.
+    Equality of two forms is equality of their term dictionaries AFTER both were brought to one operator list (`_combine_operators`, its own unit); an operand that is not a form is
+    converted (from_expr of its sympified value) first; if that fails the answer is None (sympy decides), never True / False."""
+    node = frontend.find(MODULE, "NumberOrderedForm.__eq__")
+
+    def harness(eng):
+        class F(Model):
+            def __init__(s, label, ops):
+                s.label, s.ops = label, ops
+                s.combined_with = None
+
+            def m_isinstance(s, e, clsname):
+                return clsname in ("NumberOrderedForm", "Expr", "Basic")
+
+            def m_getattr(s, e, name):
+                if name == "operators":
+                    return s.ops
+                if name == "terms":
+                    return T("terms", s)
+                if name == "_combine_operators":
+                    def comb(e_, o):
+                        a, b = F(("expanded", s.label), "common"), F(("expanded", o.label), "common")
+                        a.combined_with = (s, o)
+                        combos.append((s, o, a, b))
+                        return STup([a, b])
+                    return Builtin("_combine_operators", comb)
+                raise Unsupported(f"form.{name}")
+        combos, conv = [], []
+        me = F("self", "ops1")
+        raw = T("raw")
+        other = {"same-operators": F("other", "ops1"), "other-operators": F("other", "ops2")}.get(other_kind, raw)
+        converted = F("conv(raw)", "ops2")
+
+        def from_expr(e, x, operators=None):
+            conv.append(x)
+            if other_kind == "inconvertible":
+                raise PyRaise(SExc("ValueError", ("cannot convert",), flags={"is_Exception": z3.BoolVal(True)}))
+            return converted
+
+        class NofCls(TypeObj):
+            def m_getattr(s, e, name):
+                if name == "from_expr":
+                    return Builtin("from_expr", from_expr)
+                raise Unsupported(f"NumberOrderedForm.{name}")
+        eng.globals.update({"NumberOrderedForm": NofCls("NumberOrderedForm"), "sympy": Namespace("sympy", {"sympify": Builtin("sympify", lambda e, x: T("sympified", x))}),
+                            "Exception": TypeObj("Exception")})
+        res = eng.call(Closure(node, Env(None, {}), "__eq__"), [me, other], {})
+        if other_kind == "inconvertible":
+            eng.oblige("inconvertible-operand:None", z3.BoolVal(res is None))
+            return
+        y = other if isinstance(other, F) else converted
+        if not isinstance(other, F):
+            eng.oblige("operand-converted-from-its-sympified-value-once", z3.BoolVal(len(conv) == 1 and isinstance(conv[0], T) and conv[0].head == "sympified" and conv[0].args[0] is raw))
+        else:
+            eng.oblige("a-form-is-not-converted", z3.BoolVal(not conv))
+        ok = isinstance(res, T) and res.head == "Eq" and all(isinstance(a, T) and a.head == "terms" for a in res.args)
+        eng.oblige("result-is-equality-of-two-term-dictionaries", z3.BoolVal(bool(ok)), detail=repr(res))
+        if not ok:
+            return
+        l, r = res.args[0].args[0], res.args[1].args[0]
+        if y.ops == me.ops:
+            eng.oblige("same-operators:terms-compared-directly", z3.BoolVal(l is me and r is y and not combos))
+        else:
+            eng.oblige("different-operators:both-brought-to-one-operator-list-first", z3.BoolVal(len(combos) == 1 and combos[0][0] is me and combos[0][1] is y and l is combos[0][2] and r is combos[0][3]))
+
+    r = run_unit(f"number_ordered_form:__eq__[{other_kind}]", harness, functions=[(MODULE, "NumberOrderedForm.__eq__")], timeout_ms=timeout_ms)
+    r.used_models.add("callee contracts: _combine_operators returns both forms on the union operator list with unchanged denotation (its own unit); from_expr denotes its argument")
+    return r
+
+
+def unit_small_accessors(timeout_ms=10000):
+    """operators = args[0]; terms = {powers: coefficient} of args[1]; __bool__ iff there is a term; _eval_is_zero = fuzzy_and of the coefficients' is_zero."""
+    def harness(eng):
+        OPS = T("operators")
+        c0, c1 = T("c0"), T("c1")
+        c0z, c1z = T("c0.is_zero"), T("c1.is_zero")
+        c0.m_getattr = lambda e, name: c0z if name == "is_zero" else None
+        c1.m_getattr = lambda e, name: c1z if name == "is_zero" else None
+        for nterms in (0, 2):
+            pairs = [STup([STup([1, 0]), c0]), STup([STup([0, -1]), c1])][:nterms]
+            terms = STup(pairs)
+
+            class Self(Model):
+                def m_getattr(s, e, name):
+                    if name == "args":
+                        return STup([OPS, terms])
+                    raise Unsupported(f"self.{name}")
+            fz = []
+            eng.globals.update({"fuzzy_and": Builtin("fuzzy_and", lambda e, it: (fz.append(list(e.as_seq(it).items)), T("fuzzy"))[1]),
+                                "bool": Builtin("bool", lambda e, x: len(e.as_seq(x).items) > 0)})
+            me = Self()
+
+            def run(name):
+                n = frontend.find(MODULE, f"NumberOrderedForm.{name}")
+                return eng.call(Closure(n, Env(None, {}), name), [me], {})
+            eng.oblige(f"operators-is-args[0][{nterms} terms]", z3.BoolVal(run("operators") is OPS))
+            d = run("terms")
+            okd = isinstance(d, dict) and len(d) == nterms and (nterms == 0 or (d.get((1, 0)) is c0 and d.get((0, -1)) is c1))
+            eng.oblige(f"terms-is-the-dictionary-powers->coefficient[{nterms} terms]", z3.BoolVal(bool(okd)), detail=repr(d))
+            b = run("__bool__")
+            eng.oblige(f"__bool__-iff-there-is-a-term[{nterms} terms]", z3.BoolVal(b is (nterms > 0)))
+            run("_eval_is_zero")
+            eng.oblige(f"_eval_is_zero-is-fuzzy_and-of-the-coefficients'-is_zero[{nterms} terms]", z3.BoolVal(len(fz) == 1 and fz[0] == [c0z, c1z][:nterms]), detail=repr(fz))
+    return run_unit("number_ordered_form:operators/terms/__bool__/_eval_is_zero", harness,
+                    functions=[(MODULE, "NumberOrderedForm.operators"), (MODULE, "NumberOrderedForm.terms"), (MODULE, "NumberOrderedForm.__bool__"), (MODULE, "NumberOrderedForm._eval_is_zero")],
+                    timeout_ms=timeout_ms)
